@@ -120,12 +120,36 @@ def m_try_branch(ex, p, call, k):
     split_enum(ex, p, v, 'Result', RESULT, kk, res_payload_ty(v))
 
 
+def _local_from_impl(ex, target_ty, payload):
+    """the crate's own `impl From<E1> for E2` that `?` applies when it turns an Err(E1) into the Err(E2) of the enclosing function
+    (E2 = target_ty, E1 = type of the payload), if there is exactly one candidate"""
+    e2_ = M.type_head(target_ty or '')
+    if not e2_:
+        return None
+    e1 = payload.name if isinstance(payload, Agg) else (M.type_head(payload.ty) if isinstance(payload, Sym) and payload.ty else None)
+    if not e1 or e1 == e2_:
+        return None
+    cands = {}
+    for f in ex.prog.by_last.get('from', []):
+        if f.impl_span is None or not f.blocks or '{closure' in f.raw:
+            continue
+        tr, st = ex.prog.impl_header(f.impl_span)
+        if not tr or not tr.startswith('From<') or M.type_head(st) != e2_:
+            continue
+        if M.type_head(generic_arg(tr, 0)) == e1:
+            cands[f.raw] = f
+    return next(iter(cands.values())) if len(cands) == 1 else None
+
+
 def m_from_residual(ex, p, call, k):
     v = call.args[0]
     if isinstance(v, Agg) and v.name == 'Option':
         return k(p, NONE)
     if isinstance(v, Agg) and v.variant == 'Err':
         p.events.append(Event('convert-err', call.short, (v.fields[0],), None, call.span, call.depth))
+        conv = _local_from_impl(ex, generic_arg(call.retty or '', 1), v.fields[0]) if 'Result' in (call.retty or '') else None
+        if conv is not None and call.depth < ex.max_depth + 2:
+            return ex.run_fn(conv, [v.fields[0]], p, call.depth + 1, lambda q, r: k(q, err(r)))
         return k(p, err(v.fields[0]))
     if isinstance(v, Sym):
         return k(p, err(ex.project(VarView(v, 'Err'), ('field', 0, ''))))
@@ -565,7 +589,12 @@ def _poll_read_exact(ex, p, call, k, fut):
     return True
 
 
-def m_poll(ex, p, call, k):
+def m_poll_opaque(ex, p, call, k):
+    """like m_poll, but a hand-written `impl Future` of the crate is not entered: its outcome is a symbolic Poll<T>"""
+    return m_poll(ex, p, call, k, enter_local_impls=False)
+
+
+def m_poll(ex, p, call, k, enter_local_impls=True):
     """<F as Future>::poll: crate-local coroutines are executed; any other future is a fresh
     symbolic Poll<T> (the schedule is a symbolic variable): Ready(value) | Pending."""
     pin = call.args[0]
@@ -575,6 +604,10 @@ def m_poll(ex, p, call, k):
         fut = ex.deref(p, pin)
     if isinstance(fut, Sym) and fut.get_ov('rx_buf') is not None and _poll_read_exact(ex, p, call, k, fut):
         return
+    if enter_local_impls and isinstance(call.callee, str) and call.depth < ex.max_depth and getattr(ex, 'inline_coroutines', True):
+        g = ex.resolve(call.callee)
+        if g is not None and g.blocks and '{closure' not in g.raw:
+            return NotImplemented        # a hand-written `impl Future for T` of this crate: execute its poll
     f = ex.closure_fn(fut) if isinstance(fut, Sym) else None
     if f is not None and call.depth < ex.max_depth and getattr(ex, 'inline_coroutines', True):
         p.events.append(Event('enter', 'poll:' + f.name, (fut,), None, call.span, call.depth))
